@@ -1580,6 +1580,12 @@ impl BytecodeVM {
         let current_arguments = mem::take(&mut self.arguments);
         self.release_arguments(current_arguments);
 
+        // A `return` from inside nested blocks leaves the callee's block scopes open: close
+        // them (and release their environment guards) before switching to the caller's state
+        while let Some(saved_env) = self.saved_env_stack.pop() {
+            interp.pop_scope(saved_env);
+        }
+
         // Restore VM state
         self.ip = frame.ip;
         self.chunk = frame.chunk;
